@@ -193,8 +193,10 @@ def group_name(pol, scan):
     return pol + (f"_scan{scan[1]}" if scan else "")
 
 
-def fill_builder(fb, filekey, seed, ctx, type_code, tables, plan=None, overrides=None):
-    """write a valid, distinct token into every value field of every record of one file builder"""
+def fill_builder(fb, filekey, seed, ctx, type_code, tables, plan=None, overrides=None, drift=False):
+    """write a valid, distinct token into every value field of every record of one file builder.
+    drift: per-line binary numeric fields of an image change by ONE unit from line to line (slowly varying geometry: a look angle
+    moving by 1e-6 degree per line) instead of being unrelated from line to line"""
     overrides = overrides or {}
     inst = fb.inst
     counts = {}
@@ -216,7 +218,13 @@ def fill_builder(fb, filekey, seed, ctx, type_code, tables, plan=None, overrides
                 c = dict(ctx, type_code=type_code)
                 v = special_value(rec["name"], path, leaf, h, c)
                 if v is None:
-                    v = typical_value(leaf, (seed, filekey, rec["name"], nth, path, lkey), tables)
+                    if drift and lkey > 0 and leaf["k"] in ("u16", "u32", "u64") and not leaf["t"] and rec["name"] == "line":
+                        v0 = typical_value(leaf, (seed, filekey, rec["name"], nth, path, 0), tables)
+                        v = (v0 % (1 << (8 * leaf["w"] - 1))) + lkey
+                    else:
+                        v = typical_value(leaf, (seed, filekey, rec["name"], nth, path, lkey), tables)
+                        if drift and leaf["k"] in ("u16", "u32", "u64") and not leaf["t"] and rec["name"] == "line":
+                            v = v % (1 << (8 * leaf["w"] - 1))
                 if plan is not None:
                     pv = plan(filekey, rec["name"], nth, path, leaf, line)
                     if pv is not NOTSET:
@@ -228,7 +236,7 @@ def fill_builder(fb, filekey, seed, ctx, type_code, tables, plan=None, overrides
 
 def build_product(level="1.5", images=(("HH", None, 5, 4),), seed=0, leader=None, nfp=None, scene_id="ALOS2014410740-140829",
                   product_id=None, ctx=None, overrides=None, line_overrides=None, summary_extra=None, plan=None,
-                  pixel_special=True, blank=None, kind=None, sample=None, salt_base=None, informational=None):
+                  pixel_special=True, blank=None, kind=None, sample=None, salt_base=None, informational=None, drift=False):
     """build a complete product.
 
     images: sequence of (pol, scan|None, n_lines, n_pixels)
@@ -252,7 +260,7 @@ def build_product(level="1.5", images=(("HH", None, 5, 4),), seed=0, leader=None
     line_overrides = dict(line_overrides or {})
 
     def fill(fb, filekey):
-        fill_builder(fb, filekey, seed, ctx, type_code, tables, plan=plan, overrides=overrides)
+        fill_builder(fb, filekey, seed, ctx, type_code, tables, plan=plan, overrides=overrides, drift=drift and filekey.startswith("IMG"))
 
     # volume directory
     n_img = len(images)
